@@ -4,7 +4,9 @@ package main
 import (
 	"fmt"
 	"os"
+	"runtime/debug"
 	"sort"
+	"strings"
 
 	"verif/harness/checks"
 	"verif/harness/internal/core"
@@ -49,7 +51,14 @@ func main() {
 	func() {
 		defer func() {
 			if r := recover(); r != nil {
-				c.Inconclusive(fmt.Sprintf("harness panic: %v", r))
+				st := string(debug.Stack())
+				if i := strings.Index(st, "panic("); i >= 0 {
+					st = st[i:]
+				}
+				if len(st) > 1500 {
+					st = st[:1500]
+				}
+				c.Inconclusive(fmt.Sprintf("harness panic: %v | %s", r, strings.ReplaceAll(st, "\n", " | ")))
 			}
 		}()
 		ck.Fn(c)
